@@ -151,7 +151,7 @@ every field within its range, names legal and printed/parsed in a configuration 
 character-strings of any octets within their length limits, blobs non-empty, chunking lossless, and the
 constructor's own validation. -/
 def WfText (tn : String) (st : Style) (env : PEnv) (vals : List FV) (tail : Option FV) : Prop :=
-  ∃ sch, schemaOf tn = some sch ∧ FieldsOk st env sch.fields vals ∧ TailOk st sch.tail tail ∧ sch.check vals tail = true
+  ∃ sch, schemaOf tn = some sch ∧ FieldsOk st env sch.fields vals ∧ TailOk st vals sch.tail tail ∧ sch.check vals tail = true
 
 /-- "for every implemented record type and every well-formed value, the text form parses back to an equal record: with
 arbitrary octets in character-strings and names … producing text never fails": for every type described by a schema whose
@@ -175,15 +175,17 @@ theorem text_total (tn : String) (st : Style) (env : PEnv) (vals : List FV) (tai
 
 /-- field kinds that have a round-trip lemma -/
 def kindProved : FK → Bool
-  | .uint _ | .ttl | .algo | .name | .ip4 | .ip6 | .salt => true
+  | .uint _ | .ttl | .algo | .name | .ip4 | .ip6 | .salt | .oct16 | .eui _ | .hex16x4 | .nsap => true
   | .cstr _ _ _ => true
-  | _ => false
+  | .rdtype | .algoName | .scheme | .ctype | .keyFlags | .keyProto | .sigtime => true
 
 /-- the record types whose every field kind is covered by `parseText_printText` -/
 def provedTypes : List String :=
   ["A", "AAAA", "NS", "CNAME", "PTR", "DNAME", "NSAP-PTR", "MX", "AFSDB", "RT", "KX", "LP", "PX", "SRV", "RP", "SOA",
    "TXT", "SPF", "AVC", "NINFO", "RESINFO", "WALLET", "HINFO", "X25", "ISDN", "NAPTR", "CAA", "URI", "DS", "DLV", "CDS",
-   "TLSA", "SMIMEA", "SSHFP", "ZONEMD", "DNSKEY", "CDNSKEY", "DHCID", "OPENPGPKEY", "BRID", "HHIT", "L32", "NSEC3PARAM"]
+   "TLSA", "SMIMEA", "SSHFP", "ZONEMD", "DNSKEY", "CDNSKEY", "DHCID", "OPENPGPKEY", "BRID", "HHIT", "L32", "NSEC3PARAM",
+   "CH-A", "EUI48", "EUI64", "NID", "L64", "NSAP",
+   "CERT", "DSYNC", "KEY", "RRSIG", "SIG"]
 
 /-- every type in `provedTypes` has a schema made of proved field kinds only (complete finite table, by `decide`) -/
 theorem provedTypes_covered :
